@@ -337,7 +337,7 @@ def sr_policy(p):
     if p['prio']:
         d['15'] = p['prio'][0]
     if p['name']:
-        d['129'] = bytes(p['name']).decode('ascii')
+        d['129'] = ''.join(chr(c) for c in p['name'])
     if p['rep']:
         asn, af, addr = p['rep']
         d['6'] = {'asn': u32(asn), 'afi': 'ipv4' if af == 1 else 'ipv6', 'address': ip_any(bytes(addr))}
